@@ -202,9 +202,7 @@ class Evaluator:
             out.append(self.ev(elt))
             return
         g = gens[i]
-        it = self.ev(g.iter)
-        if isinstance(it, Abs):
-            raise Unsupported("table evaluator: comprehension over %r" % it)
+        it = self.iterable(self.ev(g.iter))
         saved = dict(self.env)
         for v in it:
             if isinstance(g.target, ast.Name):
@@ -217,6 +215,18 @@ class Evaluator:
             if all(self.truth(self.ev(c)) for c in g.ifs):
                 self.comp(gens, i + 1, elt, out)
         self.env = saved
+
+    def iterable(self, it):
+        if isinstance(it, Abs):
+            if it.cls is not None and not isinstance(it.cls, str) and \
+                    hasattr(it.cls, "find_method"):
+                m = it.cls.find_method("__iter__")
+                if m is not None:
+                    r = self.inline(m, [it], {})
+                    if not isinstance(r, Abs):
+                        return r
+            raise Unsupported("table evaluator: loop over abstract %r" % it)
+        return it
 
     def truth(self, v):
         if isinstance(v, Abs):
@@ -347,6 +357,10 @@ class Evaluator:
             raise Unsupported("table evaluator: attribute %s of %r is not "
                               "declared by the rule" % (attr, base))
         if isinstance(base, ClassInfo):
+            if self.hooks is not None:
+                r = self.hooks.class_attr(self, base, attr)
+                if r is not NotImplemented:
+                    return r
             f = base.find_method(attr)
             if f is not None:
                 return f
@@ -437,6 +451,14 @@ class Evaluator:
             ent = self.resolve(f)
             if ent is None:
                 base = self.ev(f.value)
+                if f.attr == "__class__" and isinstance(base, Abs) and \
+                        isinstance(base.cls, ClassInfo):
+                    if self.hooks is not None:
+                        r = self.hooks.construct(self, base.cls, args, kwargs)
+                        if r is not NotImplemented:
+                            return r
+                    raise Unsupported("table evaluator: constructor %s(...) "
+                                      "has no model" % base.cls.qualname)
                 if self.hooks is not None:
                     r = self.hooks.method(self, base, f.attr, args, kwargs,
                                           node)
@@ -512,6 +534,11 @@ class Evaluator:
                                                "items"):
             r = getattr(base, name)(*args)
             return list(r) if name != "get" else r
+        if isinstance(base, dict) and name in ("copy", "pop", "update",
+                                               "setdefault"):
+            return getattr(base, name)(*args)
+        if isinstance(base, (list, tuple)) and name == "__iter__":
+            return list(base)
         if isinstance(base, list) and name in ("index", "count", "append",
                                                "insert", "extend", "pop",
                                                "copy", "reverse"):
@@ -718,9 +745,7 @@ class Evaluator:
             self.env[st.name] = Closure(st, self)
             return
         if isinstance(st, ast.For) and not st.orelse:
-            it = self.ev(st.iter)
-            if isinstance(it, Abs):
-                raise Unsupported("table evaluator: loop over abstract %r" % it)
+            it = self.iterable(self.ev(st.iter))
             for v in it:
                 if isinstance(st.target, ast.Name):
                     self.env[st.target.id] = v
@@ -840,6 +865,9 @@ class Hooks:
         return NotImplemented
 
     def store(self, ev, target, value, st):
+        return NotImplemented
+
+    def class_attr(self, ev, cls, attr):
         return NotImplemented
 
     def try_stmt(self, ev, st):
